@@ -31,7 +31,9 @@ from vlib.boot import B, THOROUGH, drive  # noqa: F401
 
 import os
 import shutil
+import sqlite3
 import tempfile
+from dataclasses import replace
 
 from vlib.h_tools import cbool, cint, untraced
 from vlib.ob import obligation
@@ -80,7 +82,11 @@ ASSUMES = [
 OUTSIDE = [
     "network-facing AuthService methods (fetch_server_version, profile_client, auth_middleware, token refresh), "
     "EnvService.auto_update_env / probe_environment, interactive prompts",
-    "direct use of ConfigManager.create_profile / update_profile to create or move profiles in a non-current environment",
+    "ops 9/10 (profile rename through update_profile, ConfigManager.create_profile for any environment) are in the one-step "
+    "obligation ob_step_ever only, not in the scripts; an IN-environment rename from a pre-state whose selection setting dangles "
+    "is outside (with raw ConfigManager calls, 3 names and a profile provisioned while another environment was current, "
+    "'rename active away, rename the provisioned one onto the old name' activates it: by reading; no llamactl command renames)",
+    "moving a profile to another environment by update_profile(api_url=...)",
     "unspecified: whether 'selected or created while that environment was current' means ever (EVER monitor: holds) or since "
     "the environment last became current (STINT monitor: violated by deleting the current environment, see ob_step_strict)",
     "scripts longer than the bound; more than 3 environments / 2 profile names",
@@ -177,6 +183,30 @@ class World:
                     got = None
                 if got is not None:
                     self._picked(before, got.name)
+            elif op == 9:
+                e, n = arg // 2, arg % 2
+                old = self.cm.get_profile(NAME[n], U[e])
+                if old is not None:
+                    try:
+                        svc.update_profile(replace(old, name=NAME[1 - n]))
+                    except sqlite3.IntegrityError:
+                        pass                                   # name taken in that environment: rejected
+                    else:                                      # the monitor follows the profile, not the name
+                        names = self.ever.get(U[e], set())
+                        if NAME[n] in names:
+                            names.discard(NAME[n])
+                            names.add(NAME[1 - n])
+                        if self.ghost_env == U[e] and self.ghost == NAME[n]:
+                            self.ghost = NAME[1 - n]
+            elif op == 10:
+                e, n = arg // 2, arg % 2
+                try:
+                    self.cm.create_profile(NAME[n], U[e], "proj", KEY[n])
+                except ValueError:
+                    pass
+                else:
+                    if U[e] == before:                         # created while that environment was current
+                        self.ever.setdefault(before, set()).add(NAME[n])
         after = self.env.get_current_environment().api_url
         if after != self.ghost_env:  # the current environment changed: a new stint starts with nothing picked
             self.ghost, self.ghost_env = None, after
@@ -350,5 +380,78 @@ def ob_step_strict(rowD: bool, rowA: bool, rowB: bool, pD0: bool, pD1: bool, pA0
             now = w.env.get_current_environment().api_url
             dangling = name is not None and cm.get_profile(name, now) is None
             return name is None or dangling or (w.ghost_env == now and name == w.ghost)
+        finally:
+            w.close()
+
+
+
+# ------------------------------------------------------------------------------------------------------------------
+# inductive step, EVER reading (the statement read literally), with profile renames and cross-environment provisioning
+# ------------------------------------------------------------------------------------------------------------------
+NOPS_E = 11
+
+
+def _nargs_e(op: int) -> int:
+    return 3 if op <= 2 else (1 if op == 7 else (6 if op >= 9 else 2))
+
+
+@obligation(quick=200, thorough=900, partitions_quick=[f"op == {k}" for k in range(NOPS_E)],
+            partitions_thorough=[f"op == {k} and cur == {c}" for k in range(NOPS_E) for c in range(3)],
+            what="EVER reading (the statement read literally), inductive: from ANY configuration in which the selection setting is "
+                 "empty, dangling, or names a profile that was selected/created while the current environment was current (other "
+                 "profiles of the current environment may have been provisioned while ANOTHER environment was current), one "
+                 "operation — the nine CLI operations, a profile rename through update_profile in any environment, or "
+                 "ConfigManager.create_profile for any environment — leaves the environment known-or-default, the active profile "
+                 "none or a picked profile of the current environment, and the same representation invariant",
+            bounds={"environments": "default + 1 (quick) / + 2 (thorough), rows present or deleted", "profiles": "any subset of env x {2 names}",
+                    "picked": "any subset of the current environment's profiles", "ops": NOPS_E})
+def ob_step_ever(rowD: bool, rowA: bool, rowB: bool, pD0: bool, pD1: bool, pA0: bool, pA1: bool, pB0: bool, pB1: bool,
+                 k0: bool, k1: bool, cur: int, sel: int, op: int, arg: int) -> bool:
+    """
+    pre: valid_state(rowD, rowA, rowB, pA0, pA1, pB0, pB1, cur, sel, 0)
+    pre: 0 <= op < NOPS_E and 0 <= arg < _nargs_e(op) and (op > 2 or arg < NENV) and (op < 9 or arg < 2 * NENV)
+    post: _
+    """
+    rows = [cbool(rowD), cbool(rowA), cbool(rowB)]
+    prof = [[cbool(pD0), cbool(pD1)], [cbool(pA0), cbool(pA1)], [cbool(pB0), cbool(pB1)]]
+    cur, sel = cint(cur, 0, 2), cint(sel, 0, 2)
+    picked = [cbool(k0) and prof[cur][0], cbool(k1) and prof[cur][1]]
+    op = cint(op, 0, NOPS_E - 1)
+    arg = cint(arg, 0, 5)
+    dangling = sel != 0 and not prof[cur][sel - 1]
+    if not (sel == 0 or dangling or picked[sel - 1]):        # REP
+        return True
+    if op == 9 and arg // 2 == cur and dangling:             # in-environment rename from a dangling selection: OUTSIDE
+        return True
+    with untraced():
+        w = World()
+        try:
+            cm = w.cm
+            for e in (1, 2):
+                if rows[e]:
+                    cm.create_or_update_environment(U[e], False)
+            for e in range(3):
+                for n in range(2):
+                    if prof[e][n]:
+                        cm.create_profile(NAME[n], U[e], "proj", KEY[n])
+            if not rows[0]:
+                cm.delete_environment(U[0])
+                for n in range(2):
+                    if prof[0][n]:
+                        cm.create_profile(NAME[n], U[0], "proj", KEY[n])
+            cm.set_settings_current_environment(U[cur])
+            cm.set_settings_current_profile(NAME[sel - 1] if sel else None)
+            w.ghost_env, w.ghost = U[cur], None
+            w.ever = {U[cur]: {NAME[n] for n in range(2) if picked[n]}}
+            if not (w.env_ok() and w.ever_ok()):
+                return True  # not a REP state after all (cannot happen)
+            w.apply(op, arg)
+            if not (w.env_ok() and w.ever_ok()):
+                return False
+            name = cm.get_settings_current_profile_name()
+            now = w.env.get_current_environment().api_url
+            if name is None or cm.get_profile(name, now) is None:
+                return True
+            return name in w.ever.get(now, ())
         finally:
             w.close()
